@@ -497,7 +497,11 @@ def _summarise(v, depth=0):
     if isinstance(v, dict) and depth < 3:
         return 'dict{' + ','.join(sorted(_summarise(k, depth + 1) + '=' + _summarise(x, depth + 1) for k, x in list(v.items())[:50])) + '}'
     if isinstance(v, type) or t == 'classobj':
-        return 'class:' + getattr(v, '__name__', '?')
+        # the name of a class defined inside a function is the name of a (renamable) local: a documented reflective view
+        q = getattr(v, '__qualname__', None)
+        if q is not None and q == getattr(v, '__name__', None):
+            return 'class:' + q
+        return 'class'
     if t == 'module':
         return 'module:' + getattr(v, '__name__', '?')
     return 'instance-of:' + t
